@@ -72,6 +72,9 @@ def r_term(t, st):
                 return "ex:" + local
             # two prefixes for one namespace in one query: both declared, or one declared and one bound on the graph
             first = "gb:" if st["prefix"] == "graphbound" else "ex:"
+            if st["prefix"] == "empty-first":
+                # the empty prefix and a named one for the same namespace, the empty one declared first
+                return (":" if sum(map(ord, local)) % 2 else "ex:") + local
             return (first if sum(map(ord, local)) % 2 else "ey:") + local
         if st.get("ns") and t[1].startswith(EX):
             return "<" + st["ns"] + t[1][len(EX) :] + ">"
@@ -156,6 +159,7 @@ _PREFIX_HEADS = {
     "two": f"PREFIX ex: <{EX}>\nPREFIX ey: <{EX}>\n",
     "two-rev": f"PREFIX ey: <{EX}>\nPREFIX ex: <{EX}>\n",
     "graphbound": f"PREFIX ey: <{EX}>\n",
+    "empty-first": f"PREFIX : <{EX}>\nPREFIX ex: <{EX}>\n",
 }
 
 
@@ -316,7 +320,7 @@ def _rewrites(g, q):
     # consistent renaming
     ren = {"s": "subj", "o": "x9", "x": "o2", "z": "s1", "p": "pp", "k": "kk", "w": "ww", "bv": "b1", "vv": "v1", "n": "cnt"}
     out.append(("rename-vars", copy.deepcopy(q), ren, False))
-    out.append(("prefix", copy.deepcopy(q), None, g.choice([True, True, "two", "two-rev", "graphbound"])))
+    out.append(("prefix", copy.deepcopy(q), None, g.choice([True, True, "two", "two-rev", "graphbound", "empty-first"])))
     return out
 
 
